@@ -468,6 +468,21 @@ def collect_variable_lookup(
         variable_lookup.append(resolved_kwargs)
 
     ##
+    # Parameters of the condition which were not supplied by the call take their default values
+    # (*e.g.*, ``lambda x, limit=limit: x < limit``); they precede the closure and the globals.
+    ##
+
+    defaults = dict()  # type: Dict[str, Any]
+    for param in inspect.signature(condition).parameters.values():
+        if param.default is not inspect.Parameter.empty and (
+            resolved_kwargs is None or param.name not in resolved_kwargs
+        ):
+            defaults[param.name] = param.default
+
+    if defaults:
+        variable_lookup.append(defaults)
+
+    ##
     # Add closure to the lookup
     ##
 
